@@ -117,7 +117,7 @@ def daun_transform(data, reg=0.0, degree=0, dr=1.0, direction='inverse',
     M = get_bs_cached(w, degree, reg_type, strength, direction, basis_dir,
                       verbose)
 
-    if reg == 'nonneg':
+    if reg == 'nonneg' and direction == 'inverse':
         if verbose:
             print('Solving NNLS equations...')
             sys.stdout.flush()
